@@ -73,12 +73,14 @@ type selCase struct {
 }
 
 type pendingOp struct {
-	kind  opKind
-	ch    *Chan
-	val   Value
-	cases []selCase
-	deflt bool
-	so    *syncObj
+	kind   opKind
+	ch     *Chan
+	val    Value
+	cases  []selCase
+	deflt  bool
+	so     *syncObj
+	so2    *syncObj
+	reader bool // RLock/RUnlock: commutes with other reader operations on the same object
 	// complete finishes the instruction on behalf of the thread (stores result, advances pc)
 	complete func(res Value)
 	desc     string
@@ -251,6 +253,20 @@ func (w *World) callFunction(th *Thread, fn *ssa.Function, args []Value, env []V
 		return
 	}
 interpret:
+	if len(w.eng.cfg.Summarize) > 0 && w.eng.cfg.summarized(name) && !w.inSummary[fn] {
+		w.inSummary[fn] = true
+		var fv Value = fn
+		if env != nil {
+			fv = &Closure{fn: fn, env: env}
+		}
+		res, ok := w.summarize(fn, fv, args)
+		delete(w.inSummary, fn)
+		if ok {
+			w.stubsSeen["summarised:"+name] = true
+			cont(res)
+			return
+		}
+	}
 	if len(w.eng.cfg.Stub) > 0 && w.eng.cfg.stubbed(name) {
 		w.stubsSeen["zero-stub:"+name] = true
 		cont(zeroResults(fn.Signature))
@@ -1177,9 +1193,7 @@ func (w *World) execCall(th *Thread, fr *frame, site ssa.Instruction, call *ssa.
 }
 
 func (w *World) execGo(th *Thread, fr *frame, in *ssa.Go) {
-	if !w.visible(th, &pendingOp{kind: opYield, desc: "go"}) {
-		return
-	}
+	// spawning commutes with every operation of other threads: not a scheduling point
 	fn, args := w.prepareCall(fr, &in.Call)
 	nt := w.newThread(th, describeFn(fn))
 	w.invokeValue(nt, fn, args, func(Value) {}, in)
